@@ -127,6 +127,10 @@ Definition resolve_method (s : scores) (c : config) : method :=
   | m => m
   end.
 
+(* the built-in (string) methods, as opposed to a user-supplied callable *)
+Definition not_callable (c : config) : Prop :=
+  match sampling_method c with MCallable _ => False | _ => True end.
+
 (* ---------- Scores._sample_indices ---------- *)
 (* lines 917-920: "try to have at least one positive and one negative sample" *)
 Definition fix_pos_neg (s : scores) (k : Z) : Z * Z :=
@@ -257,6 +261,13 @@ Definition draw_mean (d : draw) : Q :=
   | DChoiceNoRepl n size _ => inject_Z size / inject_Z n
   | DNormal _ _ => 0
   end.
+
+(* the call _single_pass_sampling(size, n, 1/size) makes, together with its result *)
+Definition sp_call (size n : Z) (ks : list Z) : draw :=
+  if (n <? 100)%Z then DBinomVec size n (1 / inject_Z size) ks
+  else DPoissonVec size (inject_Z n * (1 / inject_Z size)) ks.
+(* the index list 0, 1, ..., n-1 (np.arange(n)) *)
+Definition zseq (n : nat) : list Z := map Z.of_nat (seq 0 n).
 
 (* ---------- boolean comparison helpers for the correspondence files ---------- *)
 Definition Qclose (tol a b : Q) : bool := Qleb (a - b) tol && Qleb (b - a) tol.
